@@ -450,7 +450,7 @@ Type help or ? to list commands.
                 print('Hit breakpoint')
                 break
             new_stmt = self.find_nonempty_stmt(self.cpu.pc)
-            if new_stmt != stmt:
+            if new_stmt and new_stmt != stmt:
                 break
 
         self.show_auto_status()
